@@ -55,6 +55,10 @@ def one_case(ctx: Ctx, stream: str, i: int) -> None:
     strict = rng.random() < 0.5
     xrank = rng.randint(1, 4 if not strict else 3)
     xshape = tuple(rng.sample(DIMS, xrank))
+    if rng.random() < 0.3:
+        # a length-1 axis in the leaf: values longer than 1 along it would change the shape
+        k1 = rng.randrange(xrank)
+        xshape = xshape[:k1] + (1,) + xshape[k1 + 1:]
     kind = rng.random()
     vrank = rng.randint(1, min(3, xrank if strict else 3))
     if (strict and kind < 0.75) or (not strict and kind < 0.6):
@@ -72,7 +76,8 @@ def one_case(ctx: Ctx, stream: str, i: int) -> None:
         else:
             spec_axes = [a - xrank if rng.random() < 0.5 else a for a in axes_pos]
             spec = tuple(spec_axes) if rng.random() < 0.7 else list(spec_axes)
-        vshape = tuple(xshape[a] if rng.random() < 0.85 else 1 for a in axes_pos)
+        vshape = tuple((xshape[a] if xshape[a] != 1 or rng.random() < 0.5 else rng.choice([2, 3])) if rng.random() < 0.85 else 1
+                       for a in axes_pos)
     elif kind < 0.8:
         # broadcasting beyond the leaf rank (left or right), BroadcastDiagonalOperator only
         vshape = tuple(rng.sample(DIMS, vrank))
